@@ -578,10 +578,110 @@ Proof.
   intros p t E. discriminate.
 Qed.
 
+(* ---------- lookups of paths without an entry; histories that create entries ---------- *)
+Definition cache_sub (st : svc) : Prop :=
+  forall p t, assoc p (s_cache st) = Some t -> assoc p (s_backend st) <> None.
+
+Lemma cache_sub_step st op : cache_sub st -> cache_sub (fst (step_g false st op)).
+Proof.
+  intro H. destruct op as [p vars| |p c].
+  - cbn [step_g]. destruct (assoc p (s_cache st)) as [t|] eqn:Ec; [exact H|].
+    destruct (assoc p (s_backend st)) as [t|] eqn:Eb; [|exact H].
+    intros q u. cbn [fst s_cache s_backend assoc].
+    destruct (str_eqb q p) eqn:E.
+    + apply str_eqb_spec in E. subst q. intros _. rewrite Eb. discriminate.
+    + apply H.
+  - intros q u. cbn. discriminate.
+  - intros q u. cbn [step_g fst s_cache s_backend assoc].
+    destruct (str_eqb q p); [discriminate|apply H].
+Qed.
+
+Lemma cache_sub_run st h : cache_sub st -> cache_sub (fst (run_g false st h)).
+Proof.
+  revert st. induction h as [|op h IH]; intros st H; [exact H|].
+  rewrite run_g_cons. cbn [fst]. apply IH. apply cache_sub_step. exact H.
+Qed.
+
+Lemma backend_step sh st op :
+  s_backend (fst (step_g sh st op)) = match op with OPut p c => (p, c) :: s_backend st | _ => s_backend st end.
+Proof.
+  destruct op as [p vars| |p c]; cbn [step_g]; [|reflexivity|reflexivity].
+  destruct (assoc p (s_cache st)); [reflexivity|].
+  destruct (assoc p (s_backend st)); reflexivity.
+Qed.
+
+Lemma backend_run sh st h : s_backend (fst (run_g sh st h)) = store_after (s_backend st) h.
+Proof.
+  revert st. induction h as [|op h IH]; intro st; [reflexivity|].
+  rewrite run_g_cons. cbn [fst]. rewrite IH, backend_step. unfold store_after. cbn [fold_left].
+  destruct op; reflexivity.
+Qed.
+
+(* a processed lookup of a path without an entry fails - after every history *)
+Lemma needs_entry be h p vars :
+  assoc p (store_after be h) = None ->
+  snd (step_g false (fst (run_g false (fresh be) h)) (OReq p vars)) = None.
+Proof.
+  intro Hn.
+  assert (Hs : cache_sub (fst (run_g false (fresh be) h))).
+  { apply cache_sub_run. intros q u E. discriminate. }
+  rewrite step_payload. unfold in_effect.
+  change be with (s_backend (fresh be)) in Hn.
+  rewrite <- (backend_run false (fresh be) h) in Hn.
+  destruct (assoc p (s_cache (fst (run_g false (fresh be) h)))) as [t|] eqn:Ec.
+  - exfalso. exact (Hs p t Ec Hn).
+  - rewrite Hn. reflexivity.
+Qed.
+
+Lemma coherent_safe st h :
+  coherent st -> safe_hist st h = true -> coherent (fst (run_g false st h)).
+Proof.
+  revert st. induction h as [|op h IH]; intros st Hc Hs; [exact Hc|].
+  cbn [safe_hist] in Hs. apply andb_true_iff in Hs. destruct Hs as [Hop Hs].
+  change (step st op) with (step_g false st op) in Hs.
+  rewrite run_g_cons. cbn [fst]. apply IH; [|exact Hs].
+  destruct op as [p vars| |p c].
+  - apply (coherent_step st (OReq p vars) Hc I).
+  - apply (coherent_step st OInv Hc I).
+  - intros q u. cbn [step_g fst s_cache s_backend assoc].
+    destruct (str_eqb q p) eqn:E.
+    + apply str_eqb_spec in E. subst q. intro Hq. rewrite Hq in Hop. discriminate.
+    + apply Hc.
+Qed.
+
+Lemma coherent_payload st p vars :
+  coherent st ->
+  snd (step_g false st (OReq p vars)) =
+  match assoc p (s_backend st) with Some t => render vars t | None => None end.
+Proof.
+  intro Hc. rewrite step_payload. unfold in_effect.
+  destruct (assoc p (s_cache st)) as [t|] eqn:Ec; [|reflexivity].
+  rewrite (Hc p t Ec). reflexivity.
+Qed.
+
+(* success/failure and payload of a processed lookup are a function of the current content of
+   the store and of the request - whatever was asked, created or invalidated before, as long as no
+   entry with a compiled template was rewritten without an invalidation *)
+Lemma history_free be h p vars :
+  safe_hist (fresh be) h = true ->
+  snd (step_g false (fst (run_g false (fresh be) h)) (OReq p vars)) =
+  match assoc p (store_after be h) with Some t => render vars t | None => None end.
+Proof.
+  intro Hs. rewrite coherent_payload.
+  - rewrite backend_run. reflexivity.
+  - apply coherent_safe; [|exact Hs]. intros q u E. discriminate E.
+Qed.
+
 (* the source sets the switch to "per request" *)
 Lemma request_data_not_cached_in_source :
   tplcache_request_data_cached = false /\ tplcache_funcmap_from_request = true /\ fm_shared = false.
 Proof. repeat split; reflexivity. Qed.
+
+(* the template loader reports a failed fetch as an error (translator tplcache over
+   configuration/template/loader.go): what lets a processed lookup of a missing entry fail and
+   leave nothing in the template cache, as [step_g] has it *)
+Lemma failed_fetch_is_error_in_source : tplcache_failed_fetch_is_error = true.
+Proof. reflexivity. Qed.
 
 (* with the switch on (function map registered with the cached template set) the payload of a
    request does depend on the variables of an earlier one *)
